@@ -58,7 +58,7 @@ ASSUMPTIONS = [
 ]
 REQUIRED_CELLS = {'quick': ['read:path=h', 'read:path=p', 'read:path=v', 'reread', 'op:w_flow', 'op:w_scale', 'op:w_T',
                             'op:w_P', 'op:w_phase', 'op:phases', 'op:w_H', 'op:mix_from', 'op:copy_like', 'op:copy_flow',
-                            'op:link', 'op:unlink', 'op:reset_thermo', 'op:empty', 'op:proxy', 'op:restore', 'op:mixH', 'op:revisit', 'op:swap', 'op:pkgswitch', 'op:volpattern', 'pkgswitch:same-chemicals',
+                            'op:link', 'op:unlink', 'op:reset_thermo', 'op:empty', 'op:proxy', 'op:restore', 'op:mixH', 'op:revisit', 'op:swap', 'op:pkgswitch', 'op:volpattern', 'op:H_same', 'H_same:eos', 'phases-expanded-in-place', 'pkgswitch:same-chemicals',
                             'pkgswitch:other-chemicals',
                             'start:S', 'start:M'],
                   'thorough': []}
@@ -113,15 +113,16 @@ SIBLINGS = {p: sorted({q for fam in _FAM if p in fam for q in fam}) for p in REA
 T_PAL = [280., 300., 320., 350., 400.]
 P_PAL = [101325., 5e4, 2e5, 1e6]
 V_PAL = [0., 1., 2., 0.5, 10., None, None]
-K_PAL = [2., 0.5, 4., 0.25, 10., 0.1, None]
+K_PAL = [2., 0.5, 4., 0.25, 10., 0.1, None, 0.]
 PHASES = ['l', 'g', 's', 'L']
 RTOL = 1e-9
 T_TOL = 1e-6           # Mixture.T_tol
 TWIN_OF = {'P': 'Px', 'Pm': 'Pmx'}                      # same Chemicals object, different mixture rules
 TWIN = {'P': 'Px', 'Px': 'P', 'Pm': 'Pmx', 'Pmx': 'Pm'}
-CHEMS = {'P': 'P', 'Px': 'P', 'Pm': 'Pm', 'Pmx': 'Pm', 'Q': 'Q', 'R': 'R'}   # package -> its Chemicals object
-SAME_IDS = ['P', 'Pm', 'Px', 'Pmx']                      # same chemical IDs in the same order
-ALL_PK = ['P', 'Q', 'R', 'Pm', 'Px', 'Pmx']
+CHEMS = {'P': 'P', 'Px': 'P', 'Ppr': 'P', 'Pm': 'Pm', 'Pmx': 'Pm', 'Q': 'Q', 'R': 'R'}   # package -> its Chemicals object
+SAME_IDS = ['P', 'Pm', 'Px', 'Pmx', 'Ppr']                      # same chemical IDs in the same order
+ALL_PK = ['P', 'Q', 'R', 'Pm', 'Px', 'Pmx', 'Ppr']
+NO_SOLVE = ('Px', 'Pmx', 'Ppr')                          # H(T) not monotonic / no unique root: no energy-balance solves
 GAS_SENSITIVE = ['H', 'S', 'h', 'Hnet']                  # what the mixture rules of Px / Pmx change (gas phase)
 EXPLORE = ['xread', 'detached', 'mproxy_ctor', 'mproxy_view', 'datacache', 'stranded']
 
@@ -155,6 +156,10 @@ def packages():
         c = _PK[base_id].chemicals
         _PK[twin] = tmo.Thermo(c, mixture=tmo.IdealMixture.from_chemicals(c, include_excess_energies=True))
         assert _PK[twin].chemicals is c
+    # equation-of-state package on the Chemicals object of P (its mixture object keeps per-call state)
+    from thermosteam.mixture import PRMixture
+    c = _PK['P'].chemicals
+    _PK['Ppr'] = tmo.Thermo(c, mixture=PRMixture.from_chemicals(c))
     for k, t in _PK.items():
         _NAMES[k] = list(t.chemicals.IDs)
         _MW[k] = {n: float(m) for n, m in zip(t.chemicals.IDs, t.chemicals.MW)}
@@ -567,7 +572,12 @@ def draw_handle(ch, tag, name, kind=None, pkg=None, phases=None, allowed=None):
     return Handle(name, 'M', pkg, Flow(rows), TC(T, P), None, list(phases), real, convert)
 
 
-def draw_donor(ch, tag, recv, allow_multi=True, need_phase=False):
+def new_phases_for(recv):
+    """Phases a single-phase donor may bring into a MultiStream receiver (neither the label nor its case twin present)."""
+    return [p for p in PHASES if p not in recv.phases and p.swapcase() not in recv.phases]
+
+
+def draw_donor(ch, tag, recv, allow_multi=True, need_phase=False, expand=False):
     """A new donor stream admissible for the receiver handle.  Returns (real, state)."""
     if recv.kind == 'S':
         pkg = ch.choice(f'{tag}.pkg', [recv.pkg, recv.pkg] + ALL_PK)
@@ -582,7 +592,8 @@ def draw_donor(ch, tag, recv, allow_multi=True, need_phase=False):
     else:
         kind = ch.choice(f'{tag}.kind', ['S', 'M']) if allow_multi else 'S'
         if kind == 'S':
-            h = draw_handle(ch, tag, tag, kind='S', pkg=recv.pkg, phases=[ch.choice(f'{tag}.phase', list(recv.phases))])
+            phs = list(recv.phases) + (new_phases_for(recv) * 2 if expand else [])
+            h = draw_handle(ch, tag, tag, kind='S', pkg=recv.pkg, phases=[ch.choice(f'{tag}.phase', phs)])
         else:
             h = draw_handle(ch, tag, tag, kind='M', pkg=recv.pkg, phases=list(recv.phases))
     W = World(); W.h[tag] = h
@@ -681,7 +692,7 @@ def op_mixH(ch, W, ctx):
     F1 = sum(s1['rows'][ph].values()); F2 = sum(s2['rows'][ph].values())
     if not F1 or not F2 or ph in ('s',):
         ctx.cell('avoided:mixH-empty-or-solid'); return
-    if s1['pkg'] in ('Px', 'Pmx'):
+    if s1['pkg'] in NO_SOLVE:
         ctx.cell('avoided:mixH-with-excess-energies'); return
     for p in (p1, p2):
         if p: member_read(W, member(W, p))
@@ -881,7 +892,7 @@ def op_w_scale(ch, W, ctx):
         if k is None: k = ch.logfloat('sc.k.f', -2, 2)
         ctx.call('op.scale', obj.scale, k, region=region)
     else:
-        val = ch.choice('sc.val', [1., 10., 0.5, 100., None])
+        val = ch.choice('sc.val', [1., 10., 0.5, 100., None, 0.])
         if val is None: val = ch.logfloat('sc.val.f', -2, 3)
         if how == 'F_mol':
             k = val / total
@@ -936,7 +947,7 @@ def op_w_H(ch, W, ctx):
     h, rows = target(W, path)
     if not sum(sum(r.values()) for r in st['rows'].values()):
         ctx.cell('avoided:H-setter-on-empty'); return
-    if st['pkg'] in ('Px', 'Pmx'):
+    if st['pkg'] in NO_SOLVE:
         # with excess energies H(T) of a compressed gas is not monotonic: the solved T is not unique (C02's subject)
         ctx.cell('avoided:H-setter-with-excess-energies'); return
     lo = attempt(fresh(st, T=275.), 'H'); hi = attempt(fresh(st, T=415.), 'H')
@@ -959,6 +970,46 @@ def op_w_H(ch, W, ctx):
     if abs(f.H - Hq) > tol:
         ctx.fail(f'op.H|{region}|energy-mismatch', f'target {Hq!r}, fresh stream at solved T={T!r} has H {f.H!r}')
     mutated(W, W.trace[-1])
+
+
+def op_H_same(ch, W, ctx):
+    """Assign the enthalpy the stream already has (zero-duty energy balance): nothing may change - neither the
+    stream, nor what a newly created stream in the same state reads afterwards."""
+    cands = [p for p in write_paths(W) if state(W, p)['pkg'] not in ('Px', 'Pmx')]
+    if not cands:
+        ctx.cell('H_same->read'); return op_read(ch, W, ctx)
+    path = ch.choice('Hs.path', cands)
+    st = state(W, path)
+    h, rows = target(W, path)
+    if not sum(sum(r.values()) for r in st['rows'].values()):
+        ctx.cell('avoided:H-setter-on-empty'); return
+    obj = get_obj(W, ctx, path)
+    m = member(W, path)
+    if m is not None and m not in W.consistent:
+        ctx.cell('avoided:H_same-through-inconsistent-member'); return
+    which = ch.choice('Hs.which', ['H', 'H', 'Hnet'])
+    region = f'path={path[0]},kind={st["kind"]},pkg={"eos" if st["pkg"] == "Ppr" else "ideal"}'
+    probes = ['H', 'S', 'Cn']
+    before = [attempt(fresh(st), q) for q in probes]
+    member_read(W, m)
+    W.trace.append(f'H_same {pkey(path)} {which}')
+    def f():
+        setattr(obj, which, getattr(obj, which))
+    ctx.call('op.H_same', f, region=region)
+    T = float(obj.T)
+    if abs(T - st['T']) > 1e-4:
+        ctx.fail(f'op.H_same|{region}|T-moved', f'{which} = {which} moved T from {st["T"]!r} to {T!r}')
+    h.tc.T = T
+    mutated(W, W.trace[-1])
+    if T == st['T']:
+        after = [attempt(fresh(st), q) for q in probes]
+        for q, x, y in zip(probes, before, after):
+            ok, rel = close(x, y, q, st)
+            if not ok:
+                ctx.fail(f'op.H_same|{region}|fresh-changed',
+                         f'a newly created stream in the same state read {q}={x!r} before and {y!r} after `{which} = {which}` '
+                         f'on {pkey(path)}; model {st}')
+    if st['pkg'] == 'Ppr': ctx.cell('H_same:eos')
 
 
 def op_empty(ch, W, ctx):
@@ -1050,7 +1101,7 @@ def xpkg_allowed(W, ctx, recv, donors, mode):
     return False
 
 
-def donor_ok(recv, st, need_phase=False):
+def donor_ok(recv, st, need_phase=False, expand=False):
     """Is a stream in model state st an admissible donor for the receiver handle?"""
     if recv.kind == 'S':
         if st['kind'] == 'M' and CHEMS[st['pkg']] != CHEMS[recv.pkg]: return False
@@ -1059,21 +1110,21 @@ def donor_ok(recv, st, need_phase=False):
         nz = {n for r in st['rows'].values() for n, v in r.items() if v}
         return nz <= set(recv.names())
     if CHEMS[st['pkg']] != CHEMS[recv.pkg]: return False
-    if st['kind'] == 'S': return st['phases'][0] in recv.phases
+    if st['kind'] == 'S': return st['phases'][0] in recv.phases or (expand and st['phases'][0] in new_phases_for(recv))
     return sorted(st['phases']) == sorted(recv.phases)
 
 
-def draw_donors(ch, W, ctx, tag, recv, nmax, allow_self=True):
+def draw_donors(ch, W, ctx, tag, recv, nmax, allow_self=True, expand=False):
     """List of (real, state, label) donors for receiver handle recv."""
     out = []
     n = ch.int(f'{tag}.n', 0, nmax)
     for i in range(n):
         kinds = ['new', 'new']
         if allow_self: kinds.append('self')
-        kinds += other_donors(W, recv)
+        kinds += other_donors(W, recv, expand=expand)
         k = ch.choice(f'{tag}.{i}.src', kinds)
         if k == 'new':
-            real, st = draw_donor(ch, f'{tag}.{i}', recv)
+            real, st = draw_donor(ch, f'{tag}.{i}', recv, expand=expand)
         elif k == 'self':
             real, st = recv.real, state(W, ['h', recv.name])
         else:
@@ -1082,10 +1133,19 @@ def draw_donors(ch, W, ctx, tag, recv, nmax, allow_self=True):
     return out
 
 
-def other_donors(W, recv, need_phase=False):
+def other_donors(W, recv, need_phase=False, expand=False):
     """Names of the other handles that are admissible donors and share nothing with the receiver."""
     return [n for n in handles(W) if n != recv.name and not shares_pair(recv, W.h[n])
-            and donor_ok(recv, state(W, ['h', n]), need_phase)]
+            and donor_ok(recv, state(W, ['h', n]), need_phase, expand)]
+
+
+def add_phases(ctx, recv, phases):
+    """In-place phase expansion of a MultiStream receiver (MaterialIndexer._expand_phases)."""
+    new = [p for p in phases if p not in recv.flow.rows]
+    for p in new: recv.flow.rows[p] = {}
+    if new:
+        recv.phases = sorted(set(recv.phases) | set(new))
+        ctx.cell('phases-expanded-in-place')
 
 
 def row_for(recv, st, p):
@@ -1096,7 +1156,7 @@ def row_for(recv, st, p):
 def op_mix_from(ch, W, ctx):
     hn = ch.choice('mix.h', handles(W))
     recv = W.h[hn]
-    donors = draw_donors(ch, W, ctx, 'mix', recv, 3)
+    donors = draw_donors(ch, W, ctx, 'mix', recv, 3, expand=(recv.kind == 'M' and not shares(W, recv)))
     eb = ch.bool('mix.eb')
     live = [(r, st, k) for r, st, k in donors if any(v for row in st['rows'].values() for v in row.values())]
     if recv.kind == 'S' and eb and any(st['kind'] == 'M' for _, st, _ in live):
@@ -1106,7 +1166,7 @@ def op_mix_from(ch, W, ctx):
         ctx.cell('avoided:mix-eb-mixed-phases'); eb = False
     if eb and any('s' in st['phases'] and st['rows'].get('s') for _, st, _ in live):
         ctx.cell('avoided:mix-eb-solid'); eb = False
-    if eb and (recv.pkg in ('Px', 'Pmx') or any(st['pkg'] in ('Px', 'Pmx') for _, st, _ in live)):
+    if eb and (recv.pkg in NO_SOLVE or any(st['pkg'] in NO_SOLVE for _, st, _ in live)):
         ctx.cell('avoided:mix-eb-with-excess-energies'); eb = False
     region = f'recv={recv.kind},n={min(len(live), 2)},eb={int(eb)},multi={int(any(st["kind"] == "M" for _, st, _ in live))},' \
              f'xpkg={int(any(st["pkg"] != recv.pkg for _, st, _ in live))},self={int(any(k == "self" for _, _, k in live))}'
@@ -1120,6 +1180,7 @@ def op_mix_from(ch, W, ctx):
     Hsum = sum(fresh(st).H for _, st, _ in live) if eb and len(live) >= 2 else None
     ctx.call('op.mix_from', recv.real.mix_from, [r for r, _, _ in donors], energy_balance=eb, region=region)
     # --- model
+    if recv.kind == 'M': add_phases(ctx, recv, [p for _, st, _ in live for p in st['phases']])
     new_rows = {p: {} for p in recv.flow.rows}
     for _, st, _ in live:
         for p, row in st['rows'].items():
@@ -1155,7 +1216,7 @@ def op_mix_from(ch, W, ctx):
 def op_copy_like(ch, W, ctx):
     hn = ch.choice('cl.h', handles(W))
     recv = W.h[hn]
-    (real, st, k), = draw_donors_fixed(ch, W, ctx, 'cl', recv, need_phase=True)
+    (real, st, k), = draw_donors_fixed(ch, W, ctx, 'cl', recv, need_phase=True, expand=(recv.kind == 'M' and not shares(W, recv)))
     if recv.kind == 'S' and st['kind'] == 'M':
         if shares(W, recv):
             ctx.cell('avoided:kind-change-while-linked'); return
@@ -1169,6 +1230,7 @@ def op_copy_like(ch, W, ctx):
         recv.fetched = set(); recv.detached = set(); recv.stranded = set(); new_dc(recv)
         if hn == 'a': drop_proxies(W, ctx, 'copy_like-kind-change')
     else:
+        if recv.kind == 'M': add_phases(ctx, recv, st['phases'])
         for p in recv.flow.rows: recv.flow.rows[p].clear()
         for p, row in st['rows'].items():
             (recv.vec() if recv.kind == 'S' else recv.vec(p)).update(row)
@@ -1177,12 +1239,12 @@ def op_copy_like(ch, W, ctx):
     mutated(W, W.trace[-1])
 
 
-def draw_donors_fixed(ch, W, ctx, tag, recv, need_phase=False):
+def draw_donors_fixed(ch, W, ctx, tag, recv, need_phase=False, expand=False):
     """Exactly one donor (new or the other handle)."""
-    kinds = ['new', 'new'] + other_donors(W, recv, need_phase)
+    kinds = ['new', 'new'] + other_donors(W, recv, need_phase, expand)
     k = ch.choice(f'{tag}.src', kinds)
     if k == 'new':
-        real, st = draw_donor(ch, f'{tag}.d', recv, need_phase=need_phase)
+        real, st = draw_donor(ch, f'{tag}.d', recv, need_phase=need_phase, expand=expand)
     else:
         real, st = W.h[k].real, state(W, ['h', k])
     return [(real, st, k)]
@@ -1286,7 +1348,7 @@ def op_reset_thermo(ch, W, ctx):
     if gh and 'detached' not in W.explore:
         ctx.cell('avoided:reset_thermo-with-ghost-views'); return
     nz = h.nonzero_names()
-    cands = [p for p in ('P', 'Pm', 'Q', 'R', 'Pm', 'Px', 'Pmx') if p != h.pkg and nz <= set(_NAMES[p])]
+    cands = [p for p in ('P', 'Pm', 'Q', 'R', 'Pm', 'Px', 'Pmx', 'Ppr') if p != h.pkg and nz <= set(_NAMES[p])]
     if h.pkg in TWIN: cands += [TWIN[h.pkg]] * 2
     if not cands:
         ctx.cell('avoided:reset_thermo-no-admissible-package'); return
@@ -1308,7 +1370,7 @@ def op_copy_replace(ch, W, ctx):
         ctx.cell('avoided:copy-while-linked'); return
     h = W.h['a']
     nz = h.nonzero_names()
-    cands = [None] + [p for p in ('P', 'Pm', 'Q', 'R', 'Px', 'Pmx') if p != h.pkg and nz <= set(_NAMES[p])]
+    cands = [None] + [p for p in ('P', 'Pm', 'Q', 'R', 'Px', 'Pmx', 'Ppr') if p != h.pkg and nz <= set(_NAMES[p])]
     pkg = ch.choice('cp.pkg', cands)
     W.trace.append(f'copy a thermo={pkg}')
     h.real = ctx.call('op.copy', h.real.copy, None, None if pkg is None else _PK[pkg], region=f'kind={h.kind},xpkg={int(pkg is not None)}')
@@ -1548,7 +1610,7 @@ def op_revisit(ch, W, ctx):
 OPS = {
     'read': (op_read, 10), 'revisit': (op_revisit, 3), 'pkgswitch': (op_pkgswitch, 2), 'volpattern': (op_volpattern, 2), 'mixH': (op_mixH, 1),
     'w_flow': (op_w_flow, 3), 'w_scale': (op_w_scale, 3), 'w_T': (op_w_T, 3), 'w_P': (op_w_P, 2), 'w_phase': (op_w_phase, 2),
-    'w_H': (op_w_H, 1), 'swap': (op_swap, 2), 'empty': (op_empty, 1), 'phases': (op_phases, 2), 'mix_from': (op_mix_from, 2),
+    'w_H': (op_w_H, 1), 'H_same': (op_H_same, 2), 'swap': (op_swap, 2), 'empty': (op_empty, 1), 'phases': (op_phases, 2), 'mix_from': (op_mix_from, 2),
     'copy_like': (op_copy_like, 1), 'copy_flow': (op_copy_flow, 1), 'link': (op_link, 2), 'unlink': (op_unlink, 1),
     'reset_thermo': (op_reset_thermo, 2), 'copy': (op_copy_replace, 1), 'proxy': (op_proxy, 2), 'partner': (op_partner, 1),
     'restore': (op_restore, 3),
